@@ -195,9 +195,14 @@ fn valid_oracle(c: &Valid) -> Verdict {
 // ---------------------------------------------------------------- generated valid date-times (any time of day)
 fn valid_gen_strategy() -> BS<Valid> {
     let day = prop_oneof![4 => day_0001_9999(), 1 => (-30_000i64..=30_000, 0i64..366).prop_map(|(y, k)| days_1900(y, 1, 1) + k.min(if is_leap(y) { 365 } else { 364 }))];
-    (day, tod_any(), 0usize..9)
-        .prop_map(|(day, tod, s)| {
-            let g = greg_of_ns1900(day as i128 * NS_D + tod);
+    let ns1900 = prop_oneof![
+        9 => (day, tod_any()).prop_map(|(day, tod)| day as i128 * NS_D + tod),
+        // +-2^k ns from 1900 (+- 40 s, and up to a day later): where 64-bit nanosecond counts end
+        1 => (40u32..70, any::<bool>(), prop_oneof![2 => near_offset(), 1 => (0i128..NS_D)]).prop_map(|(k, neg, off)| (if neg { -(1i128 << k) } else { 1i128 << k }) + off),
+    ];
+    (ns1900, 0usize..9)
+        .prop_map(|(t, s)| {
+            let g = greg_of_ns1900(t);
             Valid { y: g.y, m: g.m, d: g.d, hh: g.hh, mm: g.mm, ss: g.ss, ns: g.ns, s, full: true }
         })
         .boxed()
